@@ -49,6 +49,9 @@ func runSeq(run *hx.Run, seq int, ops []dbx.Op, gen func() (dbx.Op, bool), repli
 		catchAt = snapAt + (snapAt % 7)
 	}
 	or := dbx.NewOracle(run, seq)
+	// the launch deadline is decided on the views and on the members' report times: a wrong record there is a wrong
+	// input of that decision (C09)
+	or.Also = map[string][]string{"liveness-record": {"C09"}, "view-shard-set": {"C09"}, "view-missing": {"C09"}, "view-members": {"C09"}, "first-observed": {"C05"}}
 	done := []dbx.Op{}
 	results := []string{}
 	pre := dbx.TakeDump(db)
@@ -134,6 +137,17 @@ func runSeq(run *hx.Run, seq int, ops []dbx.Op, gen func() (dbx.Op, bool), repli
 			post := dbx.TakeDump(db)
 			if pre.Canon() != post.Canon() {
 				c03fail(run, seq, i, done, "state-after-restore", "state changed across snapshot/restore")
+			}
+			// the write-once / compare-and-swap law is about the record a key holds: a record that a snapshot hand-over drops
+			// or alters re-opens the key to writers it was closed to (C13)
+			for k, v := range pre.KVMap {
+				if w, ok := post.KVMap[k]; !ok || string(w) != string(v) {
+					ops := make([]dbx.Op, len(done))
+					copy(ops, done)
+					run.Violate(hx.Violation{Property: "C13", Clause: "record_survives_snapshot", Signature: "kv-record-changed-by-restore", Seq: seq, OpIndex: i,
+						What: fmt.Sprintf("the record of key %q is not the same on a replica restored from this replica's snapshot (present: %v): the next write to it is judged against another holder / finality than on this replica", k, ok), Ops: ops})
+					break
+				}
 			}
 			run.OutLine("snap " + post.Canon())
 			run.Count("snap:ok")
